@@ -12,6 +12,8 @@ def run(ck: Check):
     from explore import oracle_session
     from universe import session_universe
     session_universe(ck, oracle_session, quick=ck.tier == "quick")
+    from scale import long_run_kill_invariant
+    long_run_kill_invariant(ck)
     ex.diff()
     return ck.finish(level="proof", rule=RULE + EXTRA_RULE, assumptions=ASSUME)
 
